@@ -19,15 +19,21 @@
 (*   temp  : number of geometric cooling steps applied to the temperature  *)
 (*           since the start of the run, i.e. T = T0 * alpha^temp, computed*)
 (*           by the harness with exact float products (P-pred); -1 = the   *)
-(*           temperature is none of these values.                          *)
+(*           temperature is none of these values.  It is the temperature   *)
+(*           of the scope the run lives in; an SA executed in a Scope of   *)
+(*           its own (op "nested") has its own, shadowing temperature.     *)
+(*   best  : rank of the objective value of the BestIndividual tracked in  *)
+(*           the state (C07's memory, which every SA run carries next to   *)
+(*           its current solution), NoBest if none is tracked.             *)
 (* Observation variables: act (component executed, ONE record shape) and   *)
 (* res = [k, w]: k = "ok" | "err" | "panic" | "none", w = integer vector   *)
 (* returned by the two helper functions (<<>> otherwise).                  *)
 (*                                                                         *)
 (* Every component execution is one step.  What a step may do is given by  *)
-(* the relation Rel(a, s, t, r, s2, t2) over (call, stack and temp before, *)
-(* reply, stack and temp after): the operators draw random numbers, so the *)
-(* specification says which results are allowed, not which one is taken.   *)
+(* the relation Rel(a, s, t, b, r, s2, t2, b2) over (call, stack, temp and *)
+(* best before, reply, stack, temp and best after): the operators draw     *)
+(* random numbers, so the specification says which results are allowed,    *)
+(* not which one is taken.                                                 *)
 (* Trace validation evaluates Rel on the logged values; model checking     *)
 (* enumerates, per call, a candidate set that contains every solution of   *)
 (* Rel within the bounds (Cand) and keeps the candidates Rel accepts.      *)
@@ -41,10 +47,11 @@ CONSTANTS Ops,         \* operator names enabled in Next (model checking selects
           MaxN         \* bound on requested counts / mu / tournament sizes in Acts
 
 INF     == 999
+NoBest  == -9         \* no BestIndividual in the state
 Foreign == <<0, 0>>   \* an individual that is never a member of a model-checked source
 
-VARIABLES stack, temp, act, res
-vars == <<stack, temp, act, res>>
+VARIABLES stack, temp, best, act, res
+vars == <<stack, temp, best, act, res>>
 
 ---------------------------------------------------------------------------
 (* Basics *)
@@ -64,9 +71,13 @@ Repeat(x, n) == [i \in 1..n |-> x]
 
 R(k)     == [k |-> k, w |-> <<>>]
 RW(k, w) == [k |-> k, w |-> w]
-A(op, n, k) == [op |-> op, n |-> n, k |-> k, st |-> <<>>, pc |-> "-", lo |-> 0, hi |-> 0, last |-> 0]
-ALoad(st)   == [op |-> "load", n |-> 0, k |-> 0, st |-> st, pc |-> "-", lo |-> 0, hi |-> 0, last |-> 0]
-ASa(pc)     == [op |-> "sa_accept", n |-> 0, k |-> 0, st |-> <<>>, pc |-> pc, lo |-> 0, hi |-> 0, last |-> 0]
+A(op, n, k) == [op |-> op, n |-> n, k |-> k, st |-> <<>>, pc |-> "-", lo |-> 0, hi |-> 0, last |-> 0, b |-> NoBest]
+\* set-up: install the stack st and a BestIndividual of rank b (NoBest: none)
+ALoad(st, b) == [op |-> "load", n |-> 0, k |-> 0, st |-> st, pc |-> "-", lo |-> 0, hi |-> 0, last |-> 0, b |-> b]
+ASa(pc)     == [op |-> "sa_accept", n |-> 0, k |-> 0, st |-> <<>>, pc |-> pc, lo |-> 0, hi |-> 0, last |-> 0, b |-> NoBest]
+\* an SA step in a Scope of its own: j coolings of the scope's own temperature, then its acceptance
+\* (pc = class of p at THAT temperature); k = 1 marks a trial of a frequency cell (trace validation)
+ANested(j, pc) == [op |-> "nested", n |-> j, k |-> 0, st |-> <<>>, pc |-> pc, lo |-> 0, hi |-> 0, last |-> 0, b |-> NoBest]
 
 DeOps      == {"de_rand", "de_best", "de_ctb"}
 FitnessOps == {"roulette", "sus", "tournament", "linear_rank", "exp_rank"}
@@ -74,7 +85,7 @@ SelOps     == {"all", "none", "clone_single", "fully_random", "without_rep", "ro
                "tournament", "linear_rank", "exp_rank", "iwo"} \cup DeOps
 HelperOps  == {"weights", "reverse_rank"}
 ReplOps    == {"discard", "generational", "merge", "mu_plus_lambda", "random_repl", "keep_better"}
-SaOps      == {"sa_accept", "cool"}
+SaOps      == {"sa_accept", "cool", "nested", "update_best"}
 SetupOps   == {"load", "set_top"}
 
 ---------------------------------------------------------------------------
@@ -244,21 +255,45 @@ SaRel(a, s, r, s2) ==
 
 SaAccepted(s, s2) == s2 = Front2(s) \o <<s[Len(s)]>>
 
+(* The decision is a function of current, candidate and T alone: SaRel has no other argument.  In  *)
+(* particular the BestIndividual an SA run tracks next to its current solution (after an accepted   *)
+(* worsening move the two differ) is neither read nor changed by the acceptance.                    *)
+
+(* An SA step executed in a Scope of its own (an SA used as a step of another SA).  Temperatures    *)
+(* form a scope chain, innermost last: entering the scope initialises the nested SA's temperature   *)
+(* to ITS t_0 in the new scope (shadowing), a.n coolings count up that entry, its acceptance        *)
+(* decides by that entry (a.pc), leaving the scope drops it.  What the enclosing SA sees afterwards *)
+(* is its own entry, untouched.                                                                     *)
+NestedRel(a, s, t, r, s2, t2) ==
+    LET entered == <<t, 0>>
+        cooled  == [entered EXCEPT ![2] = @ + a.n]
+        left    == SubSeq(cooled, 1, 1)
+    IN  /\ SaShape(s)
+        /\ SaRel(a, s, r, s2)
+        /\ t2 = left[1]
+
+(* BestIndividualUpdate as the SA template runs it between evaluation and cooling: the memory takes *)
+(* the best of the top population if that is strictly better (C07); stack and temperature stay.     *)
+BestAfter(b, pop) ==
+    LET rs == {x \in Ranks(pop) : x >= 0} IN
+    IF rs = {} THEN b
+    ELSE IF b = NoBest \/ MinOf(rs) < b THEN MinOf(rs) ELSE b
+
 ---------------------------------------------------------------------------
 (* The step relation. *)
-Rel(a, s, t, r, s2, t2) ==
-    CASE a.op = "load"    -> r = R("ok") /\ s2 = a.st /\ t2 = t
-      [] a.op = "set_top" -> Len(s) >= 1 /\ r = R("ok") /\ s2 = SubSeq(s, 1, Len(s) - 1) \o a.st /\ t2 = t
+Rel(a, s, t, b, r, s2, t2, b2) ==
+    CASE a.op = "load"    -> r = R("ok") /\ s2 = a.st /\ t2 = t /\ b2 = a.b
+      [] a.op = "set_top" -> Len(s) >= 1 /\ r = R("ok") /\ s2 = SubSeq(s, 1, Len(s) - 1) \o a.st /\ t2 = t /\ b2 = b
       [] a.op \in SelOps ->
-            /\ Len(s) >= 1 /\ t2 = t /\ r.w = <<>>
+            /\ Len(s) >= 1 /\ t2 = t /\ b2 = b /\ r.w = <<>>
             /\ IF r.k = "ok"
                THEN /\ Len(s2) = Len(s) + 1
                     /\ SubSeq(s2, 1, Len(s)) = s                       \* source (and below) untouched
                     /\ SelRel(a, s[Len(s)], "ok", s2[Len(s2)])
                ELSE s2 = s /\ SelRel(a, s[Len(s)], r.k, <<>>)
-      [] a.op \in HelperOps -> Len(s) >= 1 /\ t2 = t /\ s2 = s /\ HelperRel(a, s[Len(s)], r)
+      [] a.op \in HelperOps -> Len(s) >= 1 /\ t2 = t /\ b2 = b /\ s2 = s /\ HelperRel(a, s[Len(s)], r)
       [] a.op \in ReplOps ->
-            /\ Len(s) >= 2 /\ t2 = t /\ r.w = <<>>
+            /\ Len(s) >= 2 /\ t2 = t /\ b2 = b /\ r.w = <<>>
             /\ LET par == s[Len(s) - 1]
                    off == s[Len(s)]
                IN IF ReplUnusable(a, par, off)
@@ -269,14 +304,16 @@ Rel(a, s, t, r, s2, t2) ==
                        /\ Len(s2) = Len(s) - 1
                        /\ SubSeq(s2, 1, Len(s) - 2) = Front2(s)
                        /\ OkRepl(a, par, off, s2[Len(s2)])
-      [] a.op = "sa_accept" -> SaShape(s) /\ t2 = t /\ SaRel(a, s, r, s2)
-      [] a.op = "cool"      -> r = R("ok") /\ s2 = s /\ t >= 0 /\ t2 = t + 1   \* exactly one product
+      [] a.op = "sa_accept" -> SaShape(s) /\ t2 = t /\ b2 = b /\ SaRel(a, s, r, s2)
+      [] a.op = "nested"    -> b2 = b /\ NestedRel(a, s, t, r, s2, t2)
+      [] a.op = "cool"      -> r = R("ok") /\ s2 = s /\ b2 = b /\ t >= 0 /\ t2 = t + 1   \* exactly one product
+      [] a.op = "update_best" -> Len(s) >= 1 /\ r = R("ok") /\ s2 = s /\ t2 = t /\ b2 = BestAfter(b, s[Len(s)])
 
-Step(a, r, s2, t2) ==
-    /\ act' = a /\ res' = r /\ stack' = s2 /\ temp' = t2
+Step(a, r, s2, t2, b2) ==
+    /\ act' = a /\ res' = r /\ stack' = s2 /\ temp' = t2 /\ best' = b2
     \* "= TRUE": Rel has no primed variable; evaluate it as a value, not as an action
     \* (TLC would otherwise branch on every disjunction inside it)
-    /\ Rel(a, stack, temp, r, s2, t2) = TRUE
+    /\ Rel(a, stack, temp, best, r, s2, t2, b2) = TRUE
 
 ---------------------------------------------------------------------------
 (* Candidate results for model checking: for every call a finite set that   *)
@@ -307,9 +344,13 @@ SelCandPops(a, src) ==
 
 WeightCands(src) == [DOMAIN src -> 0..Len(src)]
 
-Cand(a, s, t) ==
-    LET c(r, s2, t2) == [r |-> r, s |-> s2, t |-> t2] IN
-    CASE a.op = "load"    -> {c(R("ok"), a.st, t)}
+SaCandStacks(s) ==
+    {Append(Front2(s), p) : p \in {s[Len(s)], s[Len(s) - 1], s[Len(s) - 1] \o s[Len(s)], <<>>}}
+    \cup {s, Front2(s)}
+
+CandSB(a, s, t, b) ==
+    LET c(r, s2, t2) == [r |-> r, s |-> s2, t |-> t2, b |-> b] IN
+    CASE a.op = "load"    -> {[r |-> R("ok"), s |-> a.st, t |-> t, b |-> a.b]}
       [] a.op = "set_top" -> {c(R("ok"), SubSeq(s, 1, Len(s) - 1) \o a.st, t)}
       [] a.op \in SelOps  -> {c(R("ok"), Append(s, p), t) : p \in SelCandPops(a, s[Len(s)])}
                              \cup {c(R("err"), s, t), c(R("panic"), s, t)}
@@ -328,10 +369,20 @@ Cand(a, s, t) ==
             {c(R("ok"), Append(Front2(s), p), t) : p \in pops}
             \cup {c(R("err"), Front2(s), t), c(R("err"), s, t), c(R("panic"), s, t)}
       [] a.op = "sa_accept" ->
-            {c(R("ok"), Append(Front2(s), p), t) :
-                 p \in {s[Len(s)], s[Len(s) - 1], s[Len(s) - 1] \o s[Len(s)], <<>>}}
-            \cup {c(R("ok"), s, t), c(R("ok"), Front2(s), t), c(R("err"), s, t)}
+            {c(R("ok"), s2, t) : s2 \in SaCandStacks(s)} \cup {c(R("err"), s, t)}
+      \* the enclosing temperature afterwards: untouched / cooled by the nested SA / reset to a fresh t_0
+      [] a.op = "nested" ->
+            {c(R("ok"), s2, t2) : s2 \in SaCandStacks(s), t2 \in {t, t + a.n, t + 1, 0, -1}} \cup {c(R("err"), s, t)}
       [] a.op = "cool" -> {c(R("ok"), s, t2) : t2 \in {t, t + 1, t + 2}}
+      [] a.op = "update_best" -> {c(R("ok"), s, t)}
+
+\* ... and every plausible memory afterwards: kept, taken from the operands, or lost
+Cand(a, s, t, b) ==
+    LET bests(x) == IF a.op \in SaOps /\ Len(s) >= 1
+                    THEN {b, NoBest} \cup {q \in Ranks(s[Len(s)]) : q >= 0}
+                         \cup (IF Len(s) >= 2 THEN {q \in Ranks(s[Len(s) - 1]) : q >= 0} ELSE {})
+                    ELSE {x.b}
+    IN  UNION {{[x EXCEPT !.b = b2] : b2 \in bests(x)} : x \in CandSB(a, s, t, b)}
 
 ---------------------------------------------------------------------------
 (* Calls enabled in a state (bounded by MaxN; Ops selects operator families). *)
@@ -350,21 +401,26 @@ Acts ==
         (IF h >= 2 THEN
             {A(op, 0, 0) : op \in {"discard", "generational", "merge", "keep_better"}}
             \cup {A(op, n, 0) : op \in {"mu_plus_lambda", "random_repl"}, n \in 0..MaxN}
-            \cup (IF SaShape(stack) THEN {ASa(pc) : pc \in {"zero", "mid", "one"}} ELSE {})
+            \cup (IF SaShape(stack)
+                  THEN {ASa(pc) : pc \in {"zero", "mid", "one"}}
+                       \cup {ANested(j, pc) : j \in 0..1, pc \in {"zero", "mid", "one"}}
+                  ELSE {})
          ELSE {})
+        \cup (IF h >= 1 THEN {A("update_best", 0, 0)} ELSE {})
         \cup {A("cool", 0, 0)}
      : a.op \in Ops}
 
-LoadActs == {ALoad(st) : st \in LoadStacks}     \* set-up: install a prepared stack
+LoadActs == {ALoad(st, NoBest) : st \in LoadStacks}     \* set-up: install a prepared stack
 
 InitAct == A("init", 0, 0)
 
 Init == /\ stack = <<>>
         /\ temp = 0
+        /\ best = NoBest
         /\ act = InitAct
         /\ res = R("ok")
 
-Next == \E a \in Acts \cup LoadActs : \E c \in Cand(a, stack, temp) : Step(a, c.r, c.s, c.t)
+Next == \E a \in Acts \cup LoadActs : \E c \in Cand(a, stack, temp, best) : Step(a, c.r, c.s, c.t, c.b)
 
 Spec == Init /\ [][Next]_vars
 
@@ -462,7 +518,7 @@ UnequalSizesErr ==
                   /\ res'.k \in {"ok", "err"} ]_vars
 
 \* --- C17
-IsSa == act'.op = "sa_accept"
+IsSa == act'.op \in {"sa_accept", "nested"}     \* in the run's own scope, or in a Scope of its own
 Cur  == Under(stack)[1]
 Cnd  == Top(stack)[1]
 SurvivorOnly == [][ IsSa => /\ Ok /\ Len(stack') = Len(stack) - 1
@@ -471,10 +527,20 @@ SurvivorOnly == [][ IsSa => /\ Ok /\ Len(stack') = Len(stack) - 1
 Metropolis == [][ IsSa => /\ Rank(Cnd) <= Rank(Cur) => New = <<Cnd>>
                           /\ (Rank(Cnd) > Rank(Cur) /\ act'.pc = "zero") => New = <<Cur>>
                           /\ act'.pc = "one" => New = <<Cnd>> ]_vars
+\* (an SA nested in a Scope has its own temperature: the enclosing one is not multiplied, reset or replaced by it)
 CoolOnce == [][ /\ act'.op = "cool" => temp' = temp + 1 /\ stack' = stack
                 /\ act'.op # "cool" => temp' = temp ]_vars
+\* the decision table above mentions current, candidate and T only; the tracked best is a different memory:
+\* only its update component changes it (to the better of itself and the top population), acceptance and cooling never
+BestApart == [][ /\ act'.op \notin {"load", "update_best"} => best' = best
+                 /\ act'.op = "update_best" =>
+                       /\ stack' = stack
+                       /\ best' \in {best} \cup Ranks(Top(stack))
+                       /\ \A x \in Ranks(Top(stack)) : x >= 0 => best' <= x
+                       /\ best # NoBest => best' <= best ]_vars
 
 TypeOK == /\ \A i \in DOMAIN stack : \A j \in DOMAIN stack[i] : Len(stack[i][j]) = 2
           /\ temp \in Nat
+          /\ best \in Int
           /\ res.k \in {"ok", "err", "panic", "none"}
 =============================================================================
